@@ -94,7 +94,14 @@ class Ctx:
         for f in self.failures:
             hit = None
             for k in known:
-                if fnmatch.fnmatchcase(f["signature"], k["signature"]):
+                if "cases" in k:
+                    # a known finding pinned to specific failing inputs and their observed values: anything else is new
+                    exp = k["cases"].get(f["signature"])
+                    got = (f.get("payload") or {}).get(k.get("value_field", "defect"))
+                    if exp is not None and got is not None and abs(got - exp) <= k.get("rtol", 1e-4) * abs(exp):
+                        hit = k
+                        break
+                elif fnmatch.fnmatchcase(f["signature"], k["signature"]):
                     hit = k
                     break
             if hit is not None:
